@@ -389,6 +389,10 @@ func (ctx *Ctx) get(path []byte) any {
 
 // Compare method.
 func (ctx *Ctx) cmp(path []byte, cond op, right []byte) bool {
+	// Reset error and result to avoid catching them from previous comparisons.
+	ctx.Err = nil
+	ctx.BufB = false
+
 	// Split path.
 	ctx.bufS = ctx.bufS[:0]
 	ctx.bufS = bytealg.AppendSplitString(ctx.bufS, byteconv.B2S(path), ".", -1)
@@ -402,6 +406,9 @@ func (ctx *Ctx) cmp(path []byte, cond op, right []byte) bool {
 			// Compare var with right value using inspector.
 			if v.cntrF {
 				ctx.Err = v.ins.Compare(v.cntr, inspector.Op(cond), byteconv.B2S(right), &ctx.BufB, ctx.bufS[1:]...)
+			} else if v.val == nil && len(v.buf) > 0 {
+				// Special case: var is a byte slice.
+				ctx.Err = v.ins.Compare(&v.buf, inspector.Op(cond), byteconv.B2S(right), &ctx.BufB, ctx.bufS[1:]...)
 			} else {
 				ctx.Err = v.ins.Compare(v.val, inspector.Op(cond), byteconv.B2S(right), &ctx.BufB, ctx.bufS[1:]...)
 			}
